@@ -100,6 +100,8 @@ def oracle(s, start, after, r, flts):
                 c.add('info-write-failed')
             if not ok and info and t[1] in ('remove', 'unlink'):
                 c.add('info-cleanup-failed')
+            if not ok and info and t[1] in ('lstat', 'stat') and t[0] in fseq and 'move-fell-back-to-copy' in c:
+                c.add('info-cleanup-failed')      # the existence probe of the cleanup (remove_file: lexists) was the faulted call
             if not ok and info and t[1] == 'open' and (t[0] in fseq or 'open' in sticky_ops):
                 c.add('info-create-failed')
         if any(f.get('sticky') for f in flts) and ('info-create-failed' in c or 'info-write-failed' in c or r.budget):
@@ -124,6 +126,21 @@ def oracle(s, start, after, r, flts):
         # the property demands termination + an honest final state, not a particular wording -> don't-care
         return {'verdict': 'dontcare', 'klass': 'crashed-but-state-consistent', 'nontrivial': nt, 'detail': detail}
     if cl['state'] == 'HALF':
+        # is the original entry still complete SOMEWHERE (origin, or any payload of any trash dir)?
+        somewhere = world.same_entry(start, E, after, E, dir_mtime=False)
+        for tdx, (infos_, pays_) in scen.trash_state(after).items():
+            for nm_ in pays_:
+                if '%s/files/%s' % (tdx, nm_) not in start and world.same_entry(start, E, after, '%s/files/%s' % (tdx, nm_), dir_mtime=False):
+                    somewhere = True
+        if not somewhere and not r.budget:
+            # union of what is left: every original leaf must survive in at least one of origin / payloads
+            leaves = {k: v for k, v in world.under(start, E).items() if v[0] != 'd'}
+            places = [world.under(after, E)] + [world.under(after, '%s/files/%s' % (tdx, nm_)) for tdx, (i_, pays_) in scen.trash_state(after).items()
+                                                 for nm_ in pays_ if '%s/files/%s' % (tdx, nm_) not in start]
+            lost = [k for k, v in leaves.items() if not any(world.norm(pl.get(k, ('x',)), link_mtime=False) == world.norm(v, link_mtime=False) for pl in places)]
+            if lost:
+                detail['lost'] = lost[:5]
+                return viol('DATA-LOST' + ('+exit0' if r.exit == 0 else ''))
         what = 'half-state'
         if cl['new_payloads'] and not cl['new_infos']:
             what = 'orphan-payload'
